@@ -27,11 +27,22 @@ logger = logging.getLogger('pyx12.error_999')
 logger.setLevel(logging.DEBUG)
 
 
+def _copied(val):
+    """
+    A value copied from the received interchange, without the characters
+    that are delimiters of this acknowledgement
+    """
+    val = val or ''
+    for term in '~*:^':
+        val = val.replace(term, '')
+    return val
+
+
 def _fixed_width(val, width):
     """
     Pad or cut a value to the width of its ISA element
     """
-    return (val or '').ljust(width)[:width]
+    return _copied(val).ljust(width)[:width]
 
 
 class error_999_visitor(pyx12.error_visitor.error_visitor):
@@ -97,12 +108,12 @@ class error_999_visitor(pyx12.error_visitor.error_visitor):
         seg = errh.cur_gs_node.seg_data
         gs_seg = pyx12.segment.Segment('GS', '~', '*', ':')
         gs_seg.set('01', 'FA')
-        gs_seg.set('02', seg.get_value('GS03').rstrip())
-        gs_seg.set('03', seg.get_value('GS02').rstrip())
+        gs_seg.set('02', _copied(seg.get_value('GS03')).rstrip())
+        gs_seg.set('03', _copied(seg.get_value('GS02')).rstrip())
         gs_seg.set('04', time.strftime('%Y%m%d'))
         gs_seg.set('05', time.strftime('%H%M%S'))
         gs_seg.set('06', self.gs_control_num)
-        gs_seg.set('07', seg.get_value('GS07'))
+        gs_seg.set('07', _copied(seg.get_value('GS07')))
         gs_seg.set('08', self.vriic)
         self.wr.Write(gs_seg)
 
@@ -144,9 +155,9 @@ class error_999_visitor(pyx12.error_visitor.error_visitor):
             #seg = ['TA1', err_isa.isa_trn_set_id, err_isa.orig_date, \
             #    err_isa.orig_time]
             ta1_seg = pyx12.segment.Segment('TA1', '~', '*', ':')
-            ta1_seg.append(err_isa.isa_trn_set_id)
-            ta1_seg.append(err_isa.orig_date)
-            ta1_seg.append(err_isa.orig_time)
+            ta1_seg.append(_copied(err_isa.isa_trn_set_id))
+            ta1_seg.append(_copied(err_isa.orig_date))
+            ta1_seg.append(_copied(err_isa.orig_time))
             err_codes = self.__get_isa_errors(err_isa)
             if err_codes:
                 err_cde = err_codes[0]
@@ -183,9 +194,9 @@ class error_999_visitor(pyx12.error_visitor.error_visitor):
         st_seg.set('03', self.vriic)
         self.wr.Write(st_seg)
         ak1 = pyx12.segment.Segment('AK1', '~', '*', ':')
-        ak1.set('01', err_gs.fic)
-        ak1.set('02', err_gs.gs_control_num)
-        ak1.set('03', err_gs.vriic)
+        ak1.set('01', _copied(err_gs.fic))
+        ak1.set('02', _copied(err_gs.gs_control_num))
+        ak1.set('03', _copied(err_gs.vriic))
         self.wr.Write(ak1)
 
     def __get_gs_errors(self, err_gs):
@@ -254,11 +265,11 @@ class error_999_visitor(pyx12.error_visitor.error_visitor):
         if err_st.trn_set_id is None:
             raise EngineError('Cannot create AK2: err_st.trn_set_id was not set')
         seg_data = pyx12.segment.Segment('AK2', '~', '*', ':')
-        seg_data.set('01', err_st.trn_set_id)
-        seg_data.set('02', (err_st.trn_set_control_num or '').strip())
+        seg_data.set('01', _copied(err_st.trn_set_id))
+        seg_data.set('02', _copied(err_st.trn_set_control_num).strip())
         if err_st.vriic is not None:
             # ST03 is situational, so is AK203
-            seg_data.set('03', err_st.vriic)
+            seg_data.set('03', _copied(err_st.vriic))
         self.wr.Write(seg_data)
 
     def __get_st_errors(self, err_st):
